@@ -4,6 +4,8 @@ package run
 //
 //vf:use compact
 //vf:job C17 quick VF_C17_Decode kind=0..5 par=1..2
+//vf:job C17 quick VF_C17_Decode kind=7 par=1..2
+//vf:job C17 thorough VF_C17_Decode kind=6 par=1
 //vf:job C17 quick VF_C17_DecodeMany par=1..2
 //vf:job C17 thorough VF_C17_DecodeMany par=3
 //vf:job C17 thorough VF_C17_Decode kind=0..5 par=3
@@ -169,6 +171,41 @@ func vfMakeEntry(kind int, key []byte, db uint32, exp uint64) (*rdb.BinEntry, []
 			p = append(p, byte(c>>(8*uint(i))))
 		}
 		return &rdb.BinEntry{DB: db, Key: key, Type: rdb.RdbTypeHashZiplist, Value: p, ExpireAt: exp}, []vfElem{{typ: "hash", field: f, value: v}}
+	case 6, 7: // a ziplist-encoded list whose entries are integers in the ziplist's own integer encodings
+		var iv int64
+		var enc int
+		if kind == 7 {
+			// boundary values of every width, concretely (the symbolic ranges are the thorough kind 6)
+			c := []struct {
+				v   int64
+				enc int
+			}{{-128, 1}, {127, 1}, {-32768, 2}, {32767, 2}, {-32769, 3}, {32768, 3}, {-100000, 3}, {-8388608, 3}, {8388607, 3},
+				{-8388609, 4}, {2147483647, 4}, {-2147483648, 4}, {2147483648, 5}, {-9223372036854775808, 5}, {12, 0}}[vfPick("zval", 15)]
+			iv, enc = c.v, c.enc
+		} else {
+			switch vfPick("zenc", 3) {
+			case 0:
+				iv, enc = int64(int8(vfByte("i8"))), 1
+			case 1:
+				// the values Redis stores in 24 bits: beyond 16 bits, within 24
+				iv, enc = int64(int32(vfUint32("i24")))>>8, 3
+				vfAssume(vfOr(iv >= 32768, iv <= -32769))
+			default:
+				v := int32(vfUint32("i32"))
+				vfAssume(vfOr(v >= 2147483640, v <= -2147483640))
+				iv, enc = int64(v), 4
+			}
+		}
+		e1, e2 := vfZLInt(iv, enc), vfZLStr(vfBytes("zs", 1), 0)
+		zl := vfZiplist([]vfZLEntry{e1, e2})
+		p := append([]byte{rdb.RdbTypeListZiplist}, vfRdbStr(zl)...)
+		p = append(p, 6, 0)
+		c := crc64.Digest(p)
+		for i := 0; i < 8; i++ {
+			p = append(p, byte(c>>(8*uint(i))))
+		}
+		return &rdb.BinEntry{DB: db, Key: key, Type: rdb.RdbTypeListZiplist, Value: p, ExpireAt: exp},
+			[]vfElem{{typ: "list", idx: 0, value: e1.logical()}, {typ: "list", idx: 1, value: e2.logical()}}
 	}
 	p, err := rdb.EncodeDump(obj)
 	if err != nil {
@@ -219,8 +256,11 @@ func VF_C17_Decode() {
 	kind := vfParam("kind", 0)
 	conf.Options.Parallel = vfParam("par", 1)
 	key := vfBytes("key", 2)
-	db := []uint32{0, 7, 15}[vfPick("db", 3)]
-	exp := []uint64{0, 1600000000123}[vfPick("exp", 2)]
+	db, exp := uint32(7), uint64(0)
+	if kind < 6 { // the integer-entry kinds fork on the digits; its attributes are fixed
+		db = []uint32{0, 7, 15}[vfPick("db", 3)]
+		exp = []uint64{0, 1600000000123}[vfPick("exp", 2)]
+	}
 	e, want := vfMakeEntry(kind, key, db, exp)
 	pipe := make(chan *rdb.BinEntry, 1)
 	pipe <- e
